@@ -7,6 +7,7 @@ package main
 import (
 	"go/token"
 	"os"
+	"reflect"
 	"sync"
 
 	"golang.org/x/tools/go/ssa"
@@ -266,10 +267,70 @@ func (e *Engine) mergePhisAt(st *State, fr *Frame, jb *ssa.BasicBlock, arr []arr
 		}
 		vals[k] = acc
 	}
+	// Registers defined in blocks that dominate the join stay visible after it without a phi
+	// (a loop header's phis after the loop exit, a value computed before a break). If the
+	// speculated paths re-executed such a block, the arrivals disagree on those registers and
+	// they have to be merged exactly like phis; otherwise the continuation would read the value
+	// from before the region.
+	type pend struct {
+		idx int
+		v   Value
+	}
+	var pends []pend
+	for _, d := range fr.fi.defs {
+		if d.blk == jb && d.isPhi {
+			continue
+		}
+		if !d.blk.Dominates(jb) {
+			continue
+		}
+		changed := false
+		for _, ar := range arr {
+			if d.idx >= len(ar.regs) || !sameReg(ar.regs[d.idx], fr.regs[d.idx]) {
+				changed = true
+				break
+			}
+		}
+		if !changed {
+			continue
+		}
+		var acc Value
+		for a := len(arr) - 1; a >= 0; a-- {
+			v := arr[a].regs[d.idx]
+			if v == nil {
+				return false
+			}
+			if acc == nil {
+				acc = v
+				continue
+			}
+			m, mok := e.mergeValues(arr[a].cond, v, acc)
+			if !mok {
+				return false
+			}
+			acc = m
+		}
+		pends = append(pends, pend{d.idx, acc})
+	}
 	for k, phi := range phis {
 		e.set(fr, phi, vals[k])
 	}
+	for _, pd := range pends {
+		fr.regs[pd.idx] = pd.v
+	}
 	return true
+}
+
+func sameReg(a, b Value) bool {
+	if a == nil || b == nil {
+		return a == nil && b == nil
+	}
+	ta, oka := a.(*Term)
+	tb, okb := b.(*Term)
+	if oka || okb {
+		return oka && okb && ta == tb
+	}
+	return reflect.DeepEqual(a, b)
 }
 
 func (e *Engine) specRegionFrom(st *State, fr *Frame, blk, pred, join *ssa.BasicBlock, cond *Term, budget *int, out *[]arrival, phisDone bool) {
